@@ -759,6 +759,32 @@ def check_document_(ctx: Ctx, recipe, stream, r, specs_pool, unit_of_spec, reque
             ev_queries.append(f"{path_of(recv, soup)}/N/{1 if recv.hidden else 0}/{1 if co else 0}")
             ev_real.append(real_events(recv, co, idmap))
     pc0 = None
+    # the walk itself: the iterator's elements with their parent pointers -> model's tag-stack mirror (op evs)
+    evsets = {}
+
+    def set_index0(s_):
+        if s_ is None:
+            return "N"
+        key = tuple(sorted(s_))
+        if key not in evsets:
+            evsets[key] = len(evsets)
+        return str(evsets[key])
+    ev_lines = []
+    for recv in recvs:
+        for co in (False, True):
+            it = recv.descendants if co else recv.self_and_descendants
+            toks_ = []
+            for c in it:
+                par = idmap.get(id(c.parent), 999999) if c.parent is not None else 999999
+                if isinstance(c, Tag):
+                    toks_.extend(["T", str(par), str(idmap[id(c)]), "1" if c.can_be_empty_element is True else "0",
+                                  str(len(c.contents)), set_index0(c.preserve_whitespace_tags), tok(c.name)])
+                else:
+                    toks_.extend(["S", str(par)])
+            ev_lines.append(toks_)
+    requests.append({"kind": "evs", "lines": ["c14 evs " + sets_token(evsets) + (" " + " ".join(t) if t else "") for t in ev_lines],
+                     "real": ev_real, "recipe": recipe, "formatter": None, "metas": [(q, ["events-walk"]) for q in ev_queries],
+                     "stream": stream})
 
     for spec in specs:
         farg = make_formatter_arg(spec)
@@ -1210,10 +1236,26 @@ def run(ctx: Ctx):
             recipe = gen_recipe(r, stream)
             check_document(ctx, recipe, stream, r, specs_pool, unit_of_spec, requests, max_recv, n_specs)
     # ---- the Lean model ----
-    lines = [q["line"] for q in requests]
-    replies = drv.ask(lines)
+    lines = []
+    for q in requests:
+        if q["kind"] == "evs":
+            lines.extend(q["lines"])
+        else:
+            lines.append(q["line"])
+    all_replies = drv.ask(lines)
+    replies, pos = [], 0
+    for q in requests:
+        if q["kind"] == "evs":
+            replies.append(all_replies[pos:pos + len(q["lines"])])
+            pos += len(q["lines"])
+        else:
+            replies.append(all_replies[pos])
+            pos += 1
     for q, rp in zip(requests, replies):
-        got = rp.split(" | ") if rp != "" else [""]
+        if q["kind"] == "evs":
+            got = rp
+        else:
+            got = rp.split(" | ") if rp != "" else [""]
         if q["kind"].startswith("raw-"):
             # a bytes result comes back as b:<enc>:<text>; the codec step (not modelled) is applied here
             want = []
@@ -1228,13 +1270,13 @@ def run(ctx: Ctx):
                 else:
                     want.append(show(x))
         else:
-            want = q["real"] if q["kind"] == "ev" else [show(x) for x in q["real"]]
+            want = q["real"] if q["kind"] in ("ev", "evs") else [show(x) for x in q["real"]]
         ctx.count(f"model:{q['kind']}:queries", len(want))
         if got == want:
             continue
         if len(got) != len(want):
             ctx.corr_disagreements += 1
-            report(ctx, "model reply malformed", case={"recipe": q["recipe"], "formatter": q["formatter"], "reply": rp[:200]},
+            report(ctx, "model reply malformed", case={"recipe": q["recipe"], "formatter": q["formatter"], "reply": str(rp)[:200]},
                           stream=q["stream"] + "-model", no_failing_input=True)
             continue
         for (path, call), a, b in zip(q["metas"], want, got):
@@ -1244,8 +1286,8 @@ def run(ctx: Ctx):
                 # the oracle above already judged this output; a disagreement with the model alone is reported without a failing input
                 already = any(v["case"].get("recipe") == q["recipe"] and not v.get("no_failing_input_found") for v in ctx.violations)
                 report(ctx, f"model ({q['kind']}) and implementation disagree", case=case,
-                              observed=a if (q["kind"] == "ev" or ":" in a) else unshow(a),
-                              model=b if (q["kind"] == "ev" or ":" in b or "-" in b) else unshow(b),
+                              observed=a if (q["kind"] in ("ev", "evs") or ":" in a) else unshow(a),
+                              model=b if (q["kind"] in ("ev", "evs") or ":" in b or "-" in b) else unshow(b),
                               stream=q["stream"] + "-model", no_failing_input=not already)
                 break
     ctx.count("model:requests", len(lines))
